@@ -709,8 +709,20 @@ pub fn run_history(cfg: &Cfg, widths: &[usize], html: &[u8], lines_route: bool) 
             Err(e) => return vec![(conv_err(e), 0)],
         };
         let mut out = Vec::new();
-        for &w in widths {
-            let t = tree.clone();
+        for (k, &w) in widths.iter().enumerate() {
+            // every other width: a tree built again from the same parsed document (building a
+            // tree must not change the document), otherwise a clone of the first tree
+            let t = if k % 2 == 1 {
+                match c.dom_to_render_tree(&dom) {
+                    Ok(t) => t,
+                    Err(e) => {
+                        out.push((conv_err(e), 0));
+                        continue;
+                    }
+                }
+            } else {
+                tree.clone()
+            };
             let cc = html2text::verif::verif_cache_count(&t);
             let r = if lines_route {
                 match c.render_to_lines(t, w) {
